@@ -9,6 +9,16 @@ HOOK_COMMITS = subprocess.run("git -C /repo log --format=%h --grep='^verif:' ", 
 LEVEL = {
  "C01": ("Machine-checked refinement theorem (Coq): every history of Put/Get/Has/GetSize/Remove/Flush with both collectors, Close+reopen and re-bucketing anywhere, on any bit size < 32 and any positive file limits, in both immutable modes, returns call by call what a map returns (C01_store_behaves_like_map, C01_store_behaves_like_map_any_bits; closed under the global context). The theorem is about the hand-written model coq/theories/Store.v; the model is tied to /repo on every run by replaying histories executed on the real store inside Coq and comparing every result; a map oracle is evaluated on the real trace independently. Proof is the right level because the property quantifies over all key sets, configurations and histories.",
          "Trusted: Coq kernel; the correspondence (differential testing, generator-bounded); model covers the multihash primary (CID primary: oracle only); iteration is compared by the oracle, in the model it is a flush."),
+ "C02": ("Coq theorems over every reachable state: rescanning the log rebuilds exactly the live bucket table (C02_rescan_rebuilds_the_live_table), and Close+reopen through the snapshot and the rescan path give stores that answer every later history identically and like the map at Close (C02_reopen_preserves_contents_both_paths); histories with any number of reopens answer like the map. Tied to /repo by replaying real histories with reopen through snapshot / deleted snapshot / truncated snapshot on the model, comparing results and bucket tables; at every reopen the harness also opens the OTHER path on a copy of the directory and compares tables and all Gets; Close is called twice.",
+         "Trusted: Coq kernel; correspondence = differential testing; the model's Close is record-granular (flush primary, index, freelist; table kept or rebuilt); header files and the snapshot's byte format are exercised on the real code only."),
+ "C04": ("Coq theorems: histories with index GC (both scan-free flags) and primary GC (any low-use threshold) at any position answer like the map (C04_histories_with_gc_answer_like_the_map); one whole cycle of either collector is a stutter step of the refinement (C04_primary_gc_is_a_stutter_step, C04_index_gc_keeps_every_record_list). Tied to /repo by replaying histories with GC cycles and comparing results, bucket table and the byte image of every index/primary/freelist file after every cycle; the map oracle reads every key back after most cycles.",
+         "Trusted: Coq kernel; correspondence bounded by generators; the model's cycles are unbudgeted (time-limited cycles run on the real code with a counting context and are checked by the oracle only)."),
+ "C09": ("Coq theorem: histories in which the store is closed and reopened with another index bit size (any size < 32, any number of times) answer like the map (C09_rebucketing_preserves_contents), one re-bucketing re-establishes all invariants (C09_translate_step). Tied to /repo by replaying histories with re-bucketing (bit sizes 8,9,12,15,16,17 both directions) and comparing results and bucket tables; the refusal clause (other index / primary file size, alone or together with another bit size) is checked on the real code by the oracle.",
+         "Trusted: Coq kernel; correspondence; the crash clause of C09 (interrupted re-bucketing) is not covered by a theorem (see DESIGN.md) - checked by crash enumeration only where built."),
+ "C11": ("Coq theorems: once no current block lies in a non-current primary file and the change is flushed, one primary GC cycle leaves the file unlinked or truncated to nothing (C11_primary_file_released_in_one_cycle); once no bucket refers into a non-current index file one index GC cycle releases it (C11_index_file_released_in_one_cycle). Tied to /repo by replaying histories with small file limits and comparing file images after each cycle; every history ends with a drain phase (remove all, flush, 3+3 cycles) after which the oracle requires every non-current primary file and every unreferenced index file to be empty/unlinked, storage never to grow, and further cycles to change nothing.",
+         "Trusted: Coq kernel; correspondence; the bounded-cycles claim for low-use draining and the fixed-point claim are checked by the oracle on the real code, the theorems cover the one-cycle release."),
+ "C13": ("Coq theorem: the freelist invariant G (no freelist entry is current; every busy or pooled record is current or pending-free; no duplicates) holds in every state reachable by any history of writes, removals, flushes, both collectors and reopen (C13_freelist_invariant_reachable and its projections). Tied to /repo by replaying histories and comparing the freelist file byte for byte after every flush/GC; on the real files the oracle requires: no duplicate entry in file + .gc, no entry naming a current location, and at quiescent points every busy record is current or on the freelist. Writers slipping into a Flush (inline interference at the commit yield point) and budget-interrupted GC cycles are part of the histories.",
+         "Trusted: Coq kernel; correspondence; same-key concurrent writers (double free) are outside the theorem - see known findings / C05."),
 }
 
 def main():
